@@ -698,6 +698,22 @@ class Num:
             return
         st.notes["cells"] = [cl for cl in cells if self._tracked(st, cl[0]) and not (self._tracked(st, cl[0]) & bases)]
 
+    def _never_written(self, gname):
+        memo = self.prog.__dict__.setdefault("_global_written", {})
+        if gname not in memo:
+            w = False
+            for f in list(self.prog.fns.values()) + [f for fs in getattr(self.prog, "by_key", {}).values() for f in (fs if isinstance(fs, list) else [fs])]:
+                if not getattr(f, "blocks", None):
+                    continue
+                for e in f.all_events():
+                    if e.kind == "access" and e.node["k"] == "var" and e.node["n"] == gname and e.node.get("sc") in ("global", "slocal") and e.mode in ("w", "rw", "addr"):
+                        w = True
+                        break
+                if w:
+                    break
+            memo[gname] = not w
+        return memo[gname]
+
     def const_table(self, bn):
         """the values of a const-qualified global array with a constant initialiser, when bn designates one"""
         fn = self.fn
@@ -707,10 +723,14 @@ class Num:
         if x is None or x["k"] != "var" or x.get("sc") not in ("global", "slocal") or self.prog is None:
             return None
         g = self.prog.globals.get(x["n"])
-        if not g or not g.get("const") or not isinstance(g.get("init"), dict):
+        if not g or not isinstance(g.get("init"), dict):
             return None
         t = self.ty(x)
         if t.get("arr") is None:
+            # a file-scope pointer initialised with a string literal that no function ever assigns is as good as the array
+            if not (t.get("ptr") and g.get("static") and "str" in g["init"] and self._never_written(x["n"])):
+                return None
+        elif not g.get("const"):
             return None
         ini = g["init"]
         if "str" in ini:
@@ -719,7 +739,7 @@ class Num:
             vals = [e["int"] for e in ini["array"]]
         else:
             return None
-        if t["arr"] and t["arr"] > len(vals):
+        if t.get("arr") and t["arr"] > len(vals):
             vals = vals + [0] * (t["arr"] - len(vals))
         return vals
 
